@@ -197,6 +197,7 @@ def cases():
         ('remove_pass', 'pass_then_string_in_class', "class C:\n    pass\n    'not a docstring'\n    x = 1\nprint(C.__doc__, C.x)\n", True),
         ('remove_pass', 'pass_then_string_in_module', "pass\n'not a docstring'\nprint(__doc__)\n", True),
         ('remove_pass', 'pass_then_string_in_async_def', "async def f():\n    pass\n    'not a docstring'\nprint(f.__doc__)\n", True),
+        ('remove_variable_annotations', 'annotation_yield_makes_generator', "def g():\n    x: (yield 1)\n    return 2\ntry:\n    print(list(g()))\nexcept TypeError as e:\n    print('TypeError')\n", True),
         ('remove_asserts', 'assert_yield_makes_generator', "def g():\n    assert (yield 1)\n    return 2\ntry:\n    print(list(g()))\nexcept TypeError as e:\n    print('TypeError')\n", True),
         ('remove_debug', 'debug_yield_makes_generator', "def g():\n    if __debug__:\n        yield 1\n    return 2\ntry:\n    print(list(g()))\nexcept TypeError as e:\n    print('TypeError')\n", True),
         ('remove_debug', 'debug_global_declaration', "counter = 0\ndef bump():\n    if __debug__:\n        global counter\n    counter = 5\n    return counter\nprint(bump(), counter)\n", True),
